@@ -19,9 +19,11 @@ const BASE_PARTS: [&str; 28] = [
 /// and archive suffixes, backup markers, path and line terminators).  The
 /// split / rebuild / revision rules of the statement are the same for them:
 /// they are part of the text after the last '-'.
-pub const NAME_SUFFIXES: [&str; 20] = [
+pub const NAME_SUFFIXES: [&str; 30] = [
     ".tgz", ".tbz", ".txz", ".tzst", ".tar.gz", ".tar.xz", ".tar", ".pkg", ".orig", ".sig", "~",
     "/", " ", "\n", "\t", ".TGZ", ".tgz.tgz", ".tgz/", ".gz", ".zip",
+    // a dependency pattern where a name is expected (the last '-' is the last '-')
+    "-[0-9]*", "-*", "-[0-9]*nb[0-9]*", ">=1.0", "-{1,2}", "-1.0{,nb*}", "-[0-9]", ":../../cat/pkg", "-[0-9]*-[0-9]*", "-",
 ];
 
 /// Dictionary of plausible special beginnings (relative / absolute directory
@@ -376,9 +378,11 @@ pub fn exhaustive_path(n: usize, mut code: usize, leading: bool, double: bool) -
     s
 }
 
-const ODD_SEGS: [&str; 22] = [
+const ODD_SEGS: [&str; 30] = [
     "..", ".", "a", "b-1", "", ".. ", "...", " ", "a b", "\u{e9}", "\u{65e5}\u{672c}", "-", "~",
     ":", "*", "a:b", " ..", ". ", "\t", "..a", "\0", "a\0b",
+    // what stands for "../.." in a Makefile, and other names with a meaning elsewhere
+    "${PKGSRCDIR}", "${.CURDIR}", "$PKGSRCDIR", "pkgsrc", "usr", "${PKGPATH}", "%D", "CVS",
 ];
 
 /// Ordinary category / package directory names of the kinds found in pkgsrc:
